@@ -1160,6 +1160,61 @@ def voice_of(doc, si, li):
     return doc["voices"][si][li] if doc.get("voices") else 2 * si + li + 1
 
 
+def kern_gaps_ok(doc):
+    """Every (voice, staff) pair is, in every measure, either absent (measure of a single written value) or one
+    run of consecutive elements with a single written value (or nothing) missing before and after it: what save_kern
+    (one spine per pair, fill_rests before/after) can express."""
+    lens = measure_lengths(doc)
+    pairs_seen = set()
+    absent = []
+    for si in range(len(doc["staves"])):
+        for li in range(2):
+            for mi, evs in layer_events(doc, si, li):
+                runs = {}
+                t = F(0)
+                for idx, (o, _, d) in enumerate(evs):
+                    for s in set(o.get("st", [si + 1])):
+                        r = runs.setdefault(s, [idx, idx, t, t + d])
+                        if idx > r[1] + 1:
+                            return False
+                        r[1], r[3] = idx, t + d
+                    t += d
+                for s, r in runs.items():
+                    pairs_seen.add((si, li, s))
+                    for gap in (r[2], lens[mi] - r[3]):
+                        if gap and gap not in PLAIN:
+                            return False
+                absent.append((si, li, mi, set(runs)))
+    for si, li, mi, present in absent:
+        for (sj, lj, s) in pairs_seen:
+            if (sj, lj) == (si, li) and s not in present and lens[mi] not in PLAIN:
+                return False
+    return True
+
+
+def kern_tied_only_pair(doc):
+    """A (voice, staff) pair whose notes are all tied continuations (so the pair is not in the note array, from which
+    save_kern's fill_rests takes the pairs to fill) and which is absent from some measure (known finding C19-K3)."""
+    pairs = {}
+    nme = len(doc["measures"])
+    for si in range(len(doc["staves"])):
+        for li in range(2):
+            prev_tie = False
+            for mi, evs in layer_events(doc, si, li):
+                if not evs:
+                    prev_tie = False
+                for o, _, _ in evs:
+                    if o["k"] in ("n", "c"):
+                        for s in o.get("st", [si + 1]):
+                            info = pairs.setdefault((si, li, s), [True, set()])
+                            info[0] = info[0] and prev_tie
+                            info[1].add(mi)
+                        prev_tie = bool(o.get("tie"))
+                    else:
+                        prev_tie = False
+    return any(only_tied and len(ms) < nme for only_tied, ms in pairs.values())
+
+
 def interior_gap(doc):
     """True when some (voice, staff) pair has, inside a measure, an element after a hole: save_kern writes such a pair
     as a spine with null tokens and load_kern places every spine by its own durations (known finding C19-K2)."""
@@ -1820,6 +1875,11 @@ def shrink_export(doc, fmt):
         except Exception:
             return False
         return r[0] == "err" or (r[0] == "ok" and bool(export_diff(fmt, r[1], r[2])))
+    if fmt == "kern" and kern_gaps_ok(doc):
+        fails_ = fails
+
+        def fails(d):
+            return kern_gaps_ok(d) and fails_(d)
 
     def clean(d):
         fix_ties(d)
